@@ -347,6 +347,14 @@ func cmdCheck(writeBaseline bool, argv []string) int {
 			known[f.Obligation] = f
 		}
 	}
+	// repaired findings stay watched: if their obligation ever fails again it is
+	// reported, baseline or not
+	watched := map[string]bool{}
+	for _, f := range kf.Fixed {
+		if f.Property == prop {
+			watched[f.Obligation] = true
+		}
+	}
 	type viol struct {
 		o      *Obl
 		id     string
@@ -388,6 +396,8 @@ func cmdCheck(writeBaseline bool, argv []string) int {
 			viols = append(viols, viol{o, o.ID, o.Status + " (replaces baseline obligation " + missingByFuncKind[fk][0] + ")"})
 		} else if _, isKnown := known[o.ID]; isKnown {
 			viols = append(viols, viol{o, o.ID, o.Status})
+		} else if watched[o.ID] {
+			viols = append(viols, viol{o, o.ID, o.Status + " (a repaired finding has returned)"})
 		} else {
 			undecided = append(undecided, fmt.Sprintf("%s [%s]", o.ID, o.Status))
 		}
